@@ -68,6 +68,12 @@ def isClosedRing (r : Ring) : Bool := decide (2 ≤ r.length) && r.getLast? == r
 def tri (l : List Bool) : String :=
   if l.all id then "all" else if l.any id then "mixed" else "none"
 
+/-- `-mag:xl` when the coordinates are so large or so small that the cubic moment sums of the centroid
+formula leave the float64 range (|coordinate| ≥ 2^340 or all ≤ 2^-340) -/
+def magTag (p : Poly) : String :=
+  let m := p.foldl (fun m r => r.foldl (fun m v => max m (max (Spec.absR v.x) (Spec.absR v.y))) m) 0
+  if m ≥ (2:Rat)^340 || (0 < m && m ≤ 1 / (2:Rat)^340) then "-mag:xl" else ""
+
 def polyTag (p : Poly) : String :=
   s!"r{min p.length 6}-closed:{tri (p.map isClosedRing)}-cw:{tri (p.map fun r => decide (Spec.shoelace2 r < 0))}"
 
@@ -118,11 +124,16 @@ def showCent : Except Fault (FQ × FQ) → String
   | .ok (x, y) => s!"({showFQ x},{showFQ y})"
   | .error e => s!"panic:{repr e}"
 
+def orderOf (p : Poly) : Option Nat := Spec.shellIndex p
+def reorder (i : Nat) (p : Poly) : Poly := Spec.moveFront i p
+
 def judgeArea (tag : String) (p : Poly) (rhs : Tok) : String :=
-  let c := Spec.canon p
   let sp := (scaleInt [p]).headD []
-  let valid := Spec.ValidPoly (Spec.canon sp)
-  let cls := s!"area-{tag}-{if valid then "valid" else "invalid"}-{polyTag p}"
+  -- validity in any ring order; `c` lists the rings of `p` (exact values) shell first
+  let order := orderOf (Spec.canon sp)
+  let valid := order.isSome
+  let c := reorder (order.getD 0) (Spec.canon p)
+  let cls := s!"area-{tag}-{if valid then (if order == some 0 then "valid" else "valid-holefirst") else "invalid"}-{polyTag p}"
   match rhs with
   | [a, o] =>
     match fvOfTok a, fvOfTok o with
@@ -144,9 +155,11 @@ def judgeArea (tag : String) (p : Poly) (rhs : Tok) : String :=
   | _ => if valid then s!"SPEC {cls} {" ".intercalate rhs}" else s!"DIFF {cls} {" ".intercalate rhs}"
 
 def judgeMArea (tag : String) (mp : MPoly) (rhs : Tok) : String :=
-  let c := mp.map Spec.canon
   let smp := scaleInt mp
-  let valid := Spec.ValidMPoly (smp.map Spec.canon) && c.all Spec.HolesFit
+  let orders := (smp.map Spec.canon).map orderOf
+  let c := (mp.map Spec.canon).zipWith (fun p o => reorder (o.getD 0) p) orders
+  let valid := orders.all (·.isSome) &&
+    Spec.ValidMPoly (((smp.map Spec.canon).zipWith (fun p o => reorder (o.getD 0) p) orders)) && c.all Spec.HolesFit
   let cls := s!"marea-{tag}-{if valid then "valid" else "invalid"}-{mpolyTag mp}"
   match rhs with
   | [a, o] =>
@@ -169,11 +182,12 @@ def judgeMArea (tag : String) (mp : MPoly) (rhs : Tok) : String :=
   | _ => if valid then s!"SPEC {cls} {" ".intercalate rhs}" else s!"DIFF {cls} {" ".intercalate rhs}"
 
 def judgeCent (tag : String) (p : Poly) (rhs : Tok) : String :=
-  let c := Spec.canon p
-  let valid := Spec.ValidPoly (Spec.canon ((scaleInt [p]).headD []))
+  let order := orderOf (Spec.canon ((scaleInt [p]).headD []))
+  let valid := order.isSome
+  let c := reorder (order.getD 0) (Spec.canon p)
   let closed := p.all isClosedRing
   let inStatement := valid && closed
-  let cls := s!"cent-{tag}-{if valid then "valid" else "invalid"}-{polyTag p}"
+  let cls := s!"cent-{tag}-{if valid then "valid" else "invalid"}-{polyTag p}{magTag p}"
   let r1 := pRes (rhs.takeWhile (· ≠ "|"))
   let r2 := pRes (rhs.drop ((rhs.takeWhile (· ≠ "|")).length + 1))
   let scale := maxAbs p
@@ -193,11 +207,13 @@ def judgeCent (tag : String) (p : Poly) (rhs : Tok) : String :=
   else s!"OK {cls}"
 
 def judgeMCent (tag : String) (mp : MPoly) (rhs : Tok) : String :=
-  let c := mp.map Spec.canon
-  let valid := Spec.ValidMPoly ((scaleInt mp).map Spec.canon)
+  let smp := (scaleInt mp).map Spec.canon
+  let orders := smp.map orderOf
+  let c := (mp.map Spec.canon).zipWith (fun p o => reorder (o.getD 0) p) orders
+  let valid := orders.all (·.isSome) && Spec.ValidMPoly (smp.zipWith (fun p o => reorder (o.getD 0) p) orders)
   let closed := mp.all (·.all isClosedRing)
   let inStatement := valid && closed
-  let cls := s!"mcent-{tag}-{if valid then "valid" else "invalid"}-{mpolyTag mp}"
+  let cls := s!"mcent-{tag}-{if valid then "valid" else "invalid"}-{mpolyTag mp}{magTag mp.flatten}"
   let r := pRes rhs
   let scale := maxAbs mp.flatten
   let m : Except Fault (FQ × FQ) := .ok (multiPolygonCentroid mp)
